@@ -552,9 +552,9 @@ def run(ck, replay):
     if res is None:
         return
     if not quick:
-        k = min(60, len(res))
-        vm = vlib.run_model_vm("\n".join(r["line"] for r in res[:k]) + "\n")
-        ck.add_obligation(vm == [r["model"] for r in res[:k]], "extracted model agrees with vm_compute on %d store programs" % k)
+        pick = [r for r in res if len(r["line"]) < 2500][:40]   # a Coq string literal of <= ~100 kB
+        vm = vlib.run_model_vm("\n".join(r["line"] for r in pick) + "\n")
+        ck.add_obligation(vm == [r["model"] for r in pick], "extracted model agrees with vm_compute on %d store programs" % len(pick))
 
     dist = {"ops": {}, "entry_types": {}, "index_class": {}, "encodings": {"json_store": 0, "proto_store": 0}, "reopen": 0, "convert": 0,
             "entry_data": {}, "observations": {}}
